@@ -12,7 +12,8 @@ RULE = ("unit cases: one real SegmentFetcher (k 1..4) driven event by event (add
         "finder cases: one real ShareFinder over <= 8 servers with answers, errors and overdue timers in random order; "
         "grid cases: N<=6 shares placed on <= N+3 servers (several per server), subsets deleted / corrupted (block data, version "
         "field, truncation, hash trees, UEB) / failing on the nth read, DYHB answers that are late, lost, or arrive only after the finder's "
-        "OVERDUE timer has fired (grid time warp), schedules by seed; "
+        "OVERDUE timer has fired (grid time warp), schedules by seed; idle-node cases: one cached node, a first read served by k holders while the other "
+        "holders' DYHB answers arrive only after it finished, the used shares then deleted, the file read again through the same node; "
         "non-trivial = at least one share bad or one fault planned")
 META = {
     "title": "Immutable availability with k good shares",
@@ -788,6 +789,8 @@ def grid_cases(ctx):
     import os
     from core import env
     for path in sorted(glob.glob(os.path.join(env.CORPUS, "C03", "*.json"))):
+        if os.path.basename(path).startswith("idle-"):
+            continue
         case = json.load(open(path))["case"]
         data, out, out2 = run_c03_grid_case(case)
         cls, expect = judge_c03_grid_case(ctx, case, data, out, out2)
@@ -809,8 +812,127 @@ def grid_cases(ctx):
         ctx.trace(1)
 
 
+# ---------------------------------------------------------------------------
+# grid: one cached node, shares reported while it is idle, then a second read
+# ---------------------------------------------------------------------------
+def gen_idle_case(r):
+    k = r.choice([1, 2, 2, 3])
+    nlate = r.choice([k, k, k + 1, k + 2])
+    n = k + nlate
+    order = list(range(n))
+    r.shuffle(order)
+    fast, late = sorted(order[:k]), sorted(order[k:])
+    spoiled = sorted(r.sample(late, r.choice([0, 0, 0, 1]) if nlate > k else 0))     # late shares that are deleted too
+    seg = r.choice([k * 16, 64, 4096])
+    return {"k": k, "n": n, "fast": fast, "late": late, "spoiled": spoiled, "segsize": seg, "size": max(56, r.choice([60, seg + 3, 3 * seg])),
+            "how": r.choice(["hang", "hang", "delay"]), "extra_servers": r.choice([0, 0, 2]), "seed": r.getrandbits(30), "reads": r.choice([[None], [[5, 20], None]])}
+
+
+def run_idle_case(case):
+    """Read #1 finishes from the k `fast` holders while the `late` holders' DYHB answers are still out; the answers
+    arrive while the node is idle; the fast holders' shares disappear; the file is read again through the SAME node."""
+    import os
+    from core import grid as G
+    from allmydata.util.consumer import download_to_data
+    n = case["n"]
+    data = bytes((3 * i + case["size"] + (i >> 2)) & 0xFF for i in range(case["size"]))
+    with G.Grid(num_servers=n + case["extra_servers"], k=case["k"], n=n, happy=1, max_segment_size=case["segsize"], seed=case["seed"], timeout=15) as g:
+        cap = g.run(g.upload(data, convergence=b"c03idle"))
+        originals, reldir = {}, None
+        for sh in g.find_shares(cap):
+            originals[sh.shnum] = g.read_share(sh)
+            reldir = os.path.dirname(os.path.relpath(sh.path, g.server(sh.server).sharedir))
+            g.delete_share(sh)
+        for shnum in range(n):                      # share i on server i, nothing elsewhere
+            d = os.path.join(g.server(shnum).sharedir, reldir)
+            os.makedirs(d, exist_ok=True)
+            with open(os.path.join(d, str(shnum)), "wb") as f:
+                f.write(originals[shnum])
+        node = g.node(cap)
+        if case["how"] == "hang":
+            for sv in case["late"]:
+                g.hang_server(sv)
+        else:
+            g.set_faults([{"server": sv, "method": "get_buckets", "nth": 0, "count": 1, "action": "delay"} for sv in case["late"]])
+        out1 = g.run(download_to_data(node), outcome=True)
+        asked = sorted(set(c[2] for c in g.sched.trace if c[3] == "get_buckets") | set(c.server for c in g.sched.lost + g.sched.delayed + g.sched.parked if c.method == "get_buckets"))
+        # the late answers arrive now, the node is idle
+        for sv in case["late"]:
+            g.unhang_server(sv)
+        g.pump()
+        while g.sched.release_one() or g.sched.deliver_late() or g.sched.deliver_delayed():
+            g.pump()
+        g.set_faults([])
+        # the shares read #1 used are gone (their servers still answer)
+        for shnum in case["fast"] + case["spoiled"]:
+            g.delete_shares(cap, shnums=[shnum])
+        outs = []
+        for rd in case["reads"]:
+            if rd is None:
+                outs.append((None, g.run(download_to_data(node), outcome=True)))
+            else:
+                outs.append((rd, g.run(download_to_data(node, rd[0], rd[1]), outcome=True)))
+    return data, out1, outs, asked
+
+
+def judge_idle_case(ctx, case, data, out1, outs, asked):
+    k = case["k"]
+    if out1.status != "ok" or out1.value != data:
+        ctx.oracle_fail("k-good-shares-but-read-failed", "first read through the node failed (%s) although the %d fast holders answer" % (out1.error or out1.status, k), case=case)
+        return "first-failed"
+    reported_late = [sv for sv in case["late"] if sv in asked and sv not in case["spoiled"]]
+    # a late holder that was never asked during read #1 is asked by read #2: it counts as well
+    good = [sv for sv in case["late"] if sv not in case["spoiled"]]
+    res = "ok"
+    for rd, o in outs:
+        want = data if rd is None else data[rd[0]:rd[0] + rd[1]]
+        if o.status in ("hung", "timeout"):
+            ctx.oracle_fail("read-never-finished", "second read through the same node is %s" % o.status, case=case)
+            res = o.status
+        elif o.status == "ok":
+            if o.value != want:
+                ctx.oracle_fail("read-returned-wrong-data", "second read through the same node returned wrong bytes", case=case, expected=want.hex()[:200], observed=o.value.hex()[:200])
+        elif len(good) >= k:
+            ctx.oracle_fail("k-good-shares-but-read-failed",
+                            "read #2 through the same node object failed with %s although %d distinct good shares sit on answering servers (k=%d): holders %r reported "
+                            "them after read #1 had finished, while the node was idle" % (o.error, len(good), k, reported_late), case=case, expected="data",
+                            observed=str(o.failure.value)[:300] if o.failure else o.error)
+            res = "failed"
+        elif o.error not in ("NotEnoughSharesError", "NoSharesError"):
+            ctx.oracle_fail("wrong-error-class-for-missing-shares", "second read failed with %s" % o.error, case=case)
+    ctx.count("idle-node:late-answers-while-idle:%d" % len(reported_late))
+    return res
+
+
+def idle_node_cases(ctx):
+    ctx.correspondence("grid-downloads-vs-rule")
+    import glob
+    import json
+    import os
+    from core import env
+    for path in sorted(glob.glob(os.path.join(env.CORPUS, "C03", "idle-*.json"))):
+        case = json.load(open(path))["case"]
+        res = judge_idle_case(ctx, case, *run_idle_case(case))
+        ctx.case((os.path.basename(path), res), kind="corpus")
+    n = ctx.n(30, 300)
+    for i in range(n):
+        r = ctx.rng("idle", i)
+        case = gen_idle_case(r)
+        try:
+            got = run_idle_case(case)
+        except Exception as e:
+            ctx.mismatch("grid-harness-error", "idle-node case could not be run: %s: %s" % (type(e).__name__, e), case=case, correspondence="grid-downloads-vs-rule")
+            continue
+        res = judge_idle_case(ctx, case, *got)
+        ctx.case((case["seed"], tuple(case["fast"])), kind="grid:idle-node:" + res)
+        ctx.trace(1)
+
+
 def replay(ctx, rec):
     case = rec.get("case") or {}
+    if "fast" in case and "late" in case:
+        data, out1, outs, asked = run_idle_case(case)
+        return {"first": [out1.status, out1.error], "later": [[rd, o.status, o.error] for rd, o in outs], "asked_during_first_read": asked}
     if "place" in case:
         data, out, out2 = run_c03_grid_case(case)
         return {"read": [out.status, out.error], "second": [out2.status, out2.error], "classes": classify(case)}
@@ -823,3 +945,4 @@ def run(ctx):
     unit_cases(ctx)
     finder_cases(ctx)
     grid_cases(ctx)
+    idle_node_cases(ctx)
